@@ -1076,4 +1076,31 @@ theorem mem_poseChain (πs : List Pose) (hπ : ∀ π ∈ πs, π.ok) (S : Solid
     rw [this]
     exact mem_pose π (hπ π (List.mem_cons_self ..)) S hS p
 
+/-! ## 12. `snap` with non-integer queries -/
+
+theorem castQuery_of_not_truncating (c : QCast) (b : Bool) (q : P3) (h : c ≠ .data ∨ b = false) : castQuery c b q = q := by
+  unfold castQuery
+  cases c with
+  | data =>
+    rcases h with h | h
+    · exact absurd rfl h
+    · simp [h]
+  | float64 => rfl
+  | other => rfl
+
+theorem snapQ_spec (c : QCast) (b : Bool) (h : c ≠ .data ∨ b = false) (data : List P3) (q10 : P3) (k : Nat) (m : Int)
+    (hs : snapQ c b data q10 = some (k, m)) :
+    ∃ v, data[k]? = some v ∧ m = d2 q10 (scale10 v) ∧ ∀ r ∈ data, d2 q10 (scale10 v) ≤ d2 q10 (scale10 r) := by
+  unfold snapQ at hs
+  rw [castQuery_of_not_truncating c b q10 h] at hs
+  obtain ⟨q, hq, hd, hmin, _⟩ := snapIdx_spec _ q10 k m hs
+  rw [List.getElem?_map] at hq
+  cases hv : data[k]? with
+  | none => rw [hv] at hq; cases hq
+  | some v =>
+    rw [hv] at hq
+    simp only [Option.map_some, Option.some.injEq] at hq
+    subst hq
+    exact ⟨v, rfl, hd.symm, fun r hr => hd ▸ hmin _ (List.mem_map_of_mem hr)⟩
+
 end Navis.Volume
